@@ -26,12 +26,12 @@ public:
                     "written:table", "written:dist", "written:pfmt", "written:plist", "written:interval", "written:opt", "written:chain", "written:keyval"};
     i.assumptions = {"tables: 1..6 columns, at least two text lines, unique names, row names only together with column names, separator-free non-blank cells, single-character separator; reader called with the same separator, header = table has column names",
                      "row-names-from-column option: compared only for tables without row names whose chosen column holds unique values",
-                     "distributions: class values / probabilities compared with |d| <= 2e-5*(1+|x|) (parameters are written with 12 decimals; calibrated: worst unchanged-tree ratio 1.3e-7, Beta quantile inversion); values and probabilities of Simple / Mixture / Constant are drawn exactly representable at the stream precision, except in the rare free-values runs where 2*10^-precision is added",
+                     "distributions: class values / probabilities compared with |d| <= 2e-5*(1+|x|) (parameters are written with 12 decimals; calibrated: worst unchanged-tree ratio 1.3e-7, Beta quantile inversion); Simple and Constant are compared with 1e-9*(1+|x|) (no numerical inversion); a Constant value that is not a short decimal is compared to the stream precision (2*10^-p)",
                      "option files: map equality for files without C block comments and without duplicate keys; variable resolution asserted (no '$(' left) for acyclic definitions only",
                      "include chains: every key of every reachable file is present and no reference is left; which definition wins is not asserted",
                      "interval descriptions, formulas: exercised, not compared (not in the statement)",
                      "clauses without storage (strict decimal grammar, wildcard vs glob, changeKeyvals) are not decided here; the re-join law is checked only for non-solid single-character delimiters with empty tokens allowed and no leading delimiter"};
-    i.tolerances["dist"] = "2e-5*(1+|x|) (>=100x the worst unchanged-tree deviation 1.3e-7, Beta) on class values and probabilities; + 2*10^-p in free-values runs (p = stream precision)";
+    i.tolerances["dist"] = "2e-5*(1+|x|) (>=100x the worst unchanged-tree deviation 1.3e-7, Beta) on class values and probabilities of families that invert a cdf; Simple/Constant 1e-9*(1+|x|); Constant with a long decimal value + 2*10^-p (p = stream precision)";
     i.tolerances["params"] = "0.6e-12 + 1e-15*|v| (12 decimals written)";
     i.tolerances["plist"] = "0.6*10^-p + 1e-14*|v| (p = stream precision)";
     return i;
@@ -44,17 +44,17 @@ public:
     for (auto& x : kindW) if (rng.chance(0.25)) x *= rng.chance(0.5) ? 0 : 3;
     { double s = 0; for (double x : kindW) s += x; if (s == 0) kindW[0] = 1; }
     double pChunk = rng.chance(0.3) ? 0 : rng.real(0.2, 0.9);
-    bool freeValues = rng.chance(0.01);        // values not representable at the stream precision: confirmed defect, kept rare
+    bool freeValues = rng.chance(0.3);         // class values / probabilities that are not short decimals
     p.cfg["free"] = freeValues;
-    // exact triggers of the other confirmed distribution-format defects (TruncExponential crashes the reader, Uniform is
-    // written without its bounds, the invariant class value is not written): one of them in about 1 run in 100
-    bool risky = !freeValues && rng.chance(0.002); long riskyAllow = risky ? (1L << rng.below(4)) : 0;
+    // the invariant class value is not part of the description language (known finding, kept): a value other than the
+    // reader's built-in 1e-6 is generated in about 1 run in 500 only
+    bool risky = rng.chance(0.002); long riskyAllow = risky ? 4 : 0;
     p.cfg["risky"] = riskyAllow;
     long T = rng.range(1, 4);
     for (long t = 0; t < T; ++t) {
       int kind = static_cast<int>(rng.weighted(kindW));
       long shape = rng.below(1 << 16);
-      if (kind == K_DIST) { shape = shape % 80; if (freeValues) shape += 80; if (risky) shape += 160 * riskyAllow; }
+      if (kind == K_DIST) { shape = shape % 80; if (freeValues) shape += 80; shape += 160 * (1 | 2 | 8 | riskyAllow); }
       if (kind == K_OPT) { long n = shape % 9, bits = (shape / 9) & (1 | 2 | 4 | 32); shape = n + 9 * bits; }        // no cycles, no block comments, no duplicate keys
       if (kind == K_CHAIN) { long nf = shape % 3, topo = (shape / 3) % 6; if (topo == 4) topo = 0; shape = nf + 3 * (topo + 6 * ((shape / 18) & 3)); }
       if (kind == K_KEYVAL) shape = shape % 14 + ((shape & 1024) ? 28 : 0);
@@ -65,7 +65,6 @@ public:
       for (long q = 0; q < nreads; ++q) {
         std::string rk = rng.pick(nat);
         if (rk == "r.keyvals" || rk == "r.nested") rk = kind == K_PFMT ? "r.pfmt" : "r.proc";
-        if (rk == "r.dist" && (riskyAllow & 1)) rk = "r.dist.truncexp";
         long opts = NATURAL | rng.below(2);
         p.ops.push_back(Op(rk, docIdx, opts, chunkPick(rng, pChunk), rng.below(1 << 16)));
         if (rk == "r.optfile" || rk == "r.optmap") { p.ops.push_back(Op("r.resolve", 0, 0)); if (rng.chance(0.3)) p.ops.push_back(Op("r.query", 0, rng.below(64), 0, rng.below(14))); }
